@@ -352,6 +352,8 @@ def run_C04(ctx):
     traces(ctx, 300 if not ctx.thorough else 3000, 'C04')
     from .c02 import dist_stage
     dist_stage(ctx, 'C04', 48 if not ctx.thorough else 8)          # rows / predicted fluxes in the distance-dependent mode
+    from .x02 import stage as resolved_stage
+    resolved_stage(ctx, 'C04')                                      # models that end up with infinite chi^2 (remove_resolved)
 
 
 def run_C03(ctx):
